@@ -468,6 +468,11 @@ func Inconclusive(format string, a ...any) {
 }
 
 func replayCommitted(c *Ctx) {
+	if os.Getenv("VERIF_NO_REPLAYS") != "" {
+		// sensitivity runs: judge the generated search alone, without the regression witnesses
+		c.Notes = append(c.Notes, "committed replays skipped (VERIF_NO_REPLAYS)")
+		return
+	}
 	files, _ := filepath.Glob(filepath.Join(c.Verif, "replays", c.ID+"-*.json"))
 	sort.Strings(files)
 	fnd, _ := LoadFindings(c.Verif)
